@@ -138,7 +138,7 @@ def specs(rng, tier, wid, nw, env):
         if i % nw == wid:
             yield s + (rng.getrandbits(48),)
     # (6) mpz level + seeded random part
-    n = (1500 if tier == 'quick' else 60000)
+    n = (12000 if tier == 'quick' else 150000)
     for i in range(n):
         c = rng.random()
         if c < 0.45:
